@@ -13,7 +13,9 @@ _PAIR = {'dst2': 'dst3', 'dst3': 'dst2'}
 def normalize(term, is_array_atom, length):
     """length: NF for the number of grid points"""
     def leaf(a):
-        if a[0] == 'fn' and a[1] in _PAIR:
+        if a[0] == 'fn' and (a[1] in _PAIR or a[1].startswith('dst')):
+            # every DST variant (normalised, zero-padded, other type) is a linear map; only the plain type-2/type-3
+            # pair is known to compose to 2N*identity
             arg = N.nf_from_key(a[2]) if N.is_nfkey(a[2]) else N.NF.atom(a[2])
             arg = normalize(arg, is_array_atom, length)
             return _apply(a[1], arg, is_array_atom, length)
@@ -45,7 +47,7 @@ def _apply(name, arg, is_array_atom, length):
             # dst of a constant vector: keep as dst(1) times the scalar
             total = total + s * N.fn(name, N.NF.const(1))
             continue
-        if len(arr) == 1 and arr[0][1] == 1 and arr[0][0][0] == 'fn' and arr[0][0][1] == _PAIR[name]:
+        if name in _PAIR and len(arr) == 1 and arr[0][1] == 1 and arr[0][0][0] == 'fn' and arr[0][0][1] == _PAIR[name]:
             k = arr[0][0][2]
             inner = N.nf_from_key(k) if N.is_nfkey(k) else N.NF.atom(k)
             total = total + s * 2 * length * inner
